@@ -5,8 +5,11 @@ import (
 	"regexp"
 	"strings"
 
+	parser "github.com/a-h/templ/parser/v2"
+
 	"verifharness/internal/core"
 	"verifharness/internal/drv"
+	"verifharness/internal/fmtser"
 	"verifharness/internal/fmttie"
 )
 
@@ -55,38 +58,241 @@ func importsOnly(a, b string) bool {
 	return ta == tb && ha != hb && (strings.Contains(ha, "import") || strings.Contains(hb, "import"))
 }
 
-// reindentOnly: the two passes have the same lines up to leading white space (and differ).
-func reindentOnly(a, b string) bool {
-	la, lb := strings.Split(a, "\n"), strings.Split(b, "\n")
-	if a == b || len(la) != len(lb) {
-		return false
+// ---------- narrow classification of an instability ----------
+//
+// An input whose second pass differs from its first is a failure of the property.  It may be filed under the shape of a
+// known finding only when the instability is EXACTLY the one the Coq model of the baseline formatter derives for this very
+// input:  (1) the model's first pass equals the real first pass byte for byte, (2) unstable_reasons is non-empty, and (3)
+// the model's predicted second pass (fmt_write (reparse f)) equals the real second pass, up to the two text-level shapes
+// the layout model does not cover, each decided line by line (dotsLine, text continuation lines).  Then the shapes are the
+// model's reasons - ALL of them, so a new reason next to a known one is still reported.  When the model names no reason
+// (theorem C09_no_reason_stable: its second pass is the first), only the two text-level shapes can excuse a line; any other
+// differing line is a violation under a shape that is not a known finding.
+
+var dotsPad = regexp.MustCompile(`\.\.\.[ \t]*\}`)
+var commentPad = regexp.MustCompile(`\*/[ \t]*\}`)
+
+func normDots(l string) string    { return dotsPad.ReplaceAllString(l, "...}") }
+func normComment(l string) string { return commentPad.ReplaceAllString(l, "*/}") }
+
+// textContinuationLines: 0-based numbers of the lines of src that lie inside a Text node after its first line.
+func textContinuationLines(src string) map[int]bool {
+	res := map[int]bool{}
+	tf, err := parser.ParseString(src)
+	if err != nil {
+		return res
 	}
-	for i := range la {
-		if strings.TrimLeft(la[i], " \t") != strings.TrimLeft(lb[i], " \t") {
-			return false
+	var nodes func(ns []parser.Node)
+	nodes = func(ns []parser.Node) {
+		for _, n := range ns {
+			switch n := n.(type) {
+			case parser.Text:
+				for l := n.Range.From.Line + 1; l <= n.Range.To.Line && strings.Contains(n.Value, "\n"); l++ {
+					res[int(l)] = true
+				}
+			case parser.Element:
+				nodes(n.Children)
+			case parser.IfExpression:
+				nodes(n.Then)
+				for _, e := range n.ElseIfs {
+					nodes(e.Then)
+				}
+				nodes(n.Else)
+			case parser.ForExpression:
+				nodes(n.Children)
+			case parser.SwitchExpression:
+				for _, cs := range n.Cases {
+					nodes(cs.Children)
+				}
+			case parser.TemplElementExpression:
+				nodes(n.Children)
+			}
 		}
 	}
-	return true
+	for _, n := range tf.Nodes {
+		if t, ok := n.(parser.HTMLTemplate); ok {
+			nodes(t.Children)
+		}
+	}
+	return res
+}
+
+// residue accounts for every line in which got differs from want by a text-level known shape; ok=false when some line is
+// not accounted for (other holds that line pair).
+func residue(want, got string) (shapes []string, ok bool, other [2]string) {
+	if want == got {
+		return nil, true, other
+	}
+	lw, lg := strings.Split(want, "\n"), strings.Split(got, "\n")
+	if len(lw) != len(lg) {
+		a, b := firstDiffLine(want, got)
+		return nil, false, [2]string{a, b}
+	}
+	var cont map[int]bool
+	seen := map[string]bool{}
+	for i := range lw {
+		if lw[i] == lg[i] {
+			continue
+		}
+		s, s2 := "", ""
+		if dotsPad.MatchString(lw[i]) && normDots(lw[i]) == normDots(lg[i]) {
+			s = "PaddingGrows:TrailingDotsExpr" // `{ children ... }`: the blanks before the closing brace grow
+		} else if commentPad.MatchString(lw[i]) && normComment(lw[i]) == normComment(lg[i]) {
+			s = "PaddingGrows:TrailingCommentExpr" // `{ x /* c */ }`: the blanks between the comment and the closing brace grow
+		} else if dotsPad.MatchString(lw[i]) && commentPad.MatchString(lw[i]) && normComment(normDots(lw[i])) == normComment(normDots(lg[i])) {
+			s, s2 = "PaddingGrows:TrailingDotsExpr", "PaddingGrows:TrailingCommentExpr" // one of each on the same line
+		} else if strings.TrimLeft(lw[i], " \t") == strings.TrimLeft(lg[i], " \t") {
+			if cont == nil {
+				cont = textContinuationLines(got)
+			}
+			if cont[i] {
+				s = "MultiLineTextReindent"
+			}
+		}
+		if s == "" {
+			return nil, false, [2]string{lw[i], lg[i]}
+		}
+		for _, x := range []string{s, s2} {
+			if x != "" && !seen[x] {
+				seen[x] = true
+				shapes = append(shapes, x)
+			}
+		}
+	}
+	return shapes, true, other
+}
+
+// classify returns the shapes under which an unstable input is reported and whether the baseline model predicts it.
+// reread: the baseline model's first pass on the tree the parser builds from the first pass (only asked for inputs whose
+// first pass is read back with another node structure; "" = not asked / model failed).
+func classify(cs fmttie.Case, m1, m2 string, reasons []string, reread string) (shapes []string, predicted bool, detail map[string]string) {
+	detail = map[string]string{}
+	if m1 != cs.P1 {
+		a, b := firstDiffLine(m1, cs.P1)
+		detail["baseline_model_first_pass_line"], detail["first_pass_line"] = a, b
+		return []string{"FirstPassNotTheBaselineLayout:" + textShape(cs.P1, cs.P2)}, false, detail
+	}
+	if !cs.SameStructure {
+		// printed text (= the baseline's, by the test above) is read back as other syntax, e.g. text beginning `else {` after
+		// an if, or `alpha {! c }` printed as `alpha @c` and read back as one text.  Known only when the second pass is what
+		// the baseline model prints for the tree that was read back.
+		if reread != cs.P2 {
+			a, b := firstDiffLine(reread, cs.P2)
+			detail["baseline_model_on_reread_tree_line"], detail["second_pass_line_not_predicted"] = a, b
+			return []string{"ReparsedStructureDiffers:SecondPassNotTheBaselineLayout"}, false, detail
+		}
+		return []string{"ReparsedStructureDiffers"}, true, detail
+	}
+	if len(reasons) > 0 {
+		rs, ok, other := residue(m2, cs.P2)
+		if !ok {
+			detail["baseline_model_second_pass_line"], detail["second_pass_line_not_predicted"] = other[0], other[1]
+			return []string{"SecondPassNotPredicted:" + textShape(other[0], other[1])}, false, detail
+		}
+		// TrailingSpaceRewritten is a consequence of a flag reason when one is named (FmtReasons.v: the sibling's own reason
+		// comes first); it is a shape of its own only when it stands alone
+		seen := map[string]bool{}
+		if len(reasons) > 1 {
+			seen["TrailingSpaceRewritten"] = true
+		}
+		for _, r := range append(append([]string{}, reasons...), rs...) {
+			if !seen[r] {
+				seen[r] = true
+				shapes = append(shapes, r)
+			}
+		}
+		return shapes, true, detail
+	}
+	// the model predicts a fixed point (m2 = m1 = first pass)
+	rs, ok, other := residue(cs.P1, cs.P2)
+	if !ok {
+		detail["line"], detail["line_after_second_pass"] = other[0], other[1]
+		return []string{"StableInBaselineModel:" + textShape(other[0], other[1])}, false, detail
+	}
+	return rs, false, detail
+}
+
+func seq(a, b int) []int {
+	var r []int
+	for i := a; i < b; i++ {
+		r = append(r, i)
+	}
+	return r
+}
+
+func encodeReread(p1 string) (enc string, ok bool) {
+	defer func() {
+		if recover() != nil {
+			ok = false
+		}
+	}()
+	tf2, err := parser.ParseString(p1)
+	if err != nil {
+		return "", false
+	}
+	return fmtser.File(tf2), true
 }
 
 func Run(c *core.Ctx) {
-	c.Rule = "programs: every .templ file of the repository (incl. the formatter's own test inputs and expected outputs), grammar-generated templ files, and whitespace mutations of both (line joins, extra blank lines, single spaces between any two tokens); distinct non-trivial = distinct inputs accepted by the parser; each is formatted three times with the real formatter"
+	c.Rule = "programs: (a) layout family - one element per file, children on one line: every child kind alone and every ordered pair of child kinds (two separators) exhaustively, then random lists, parents, attributes, contexts; (b) goexpr family - Go expressions over several lines (raw strings, stray back quotes in strings/runes/comments, literals, ragged argument lists) in every expression position, exhaustive position x argument sweeps then random; (c) every .templ file of the repository (incl. the formatter's own test inputs and expected outputs), grammar-generated templ files, and whitespace mutations of both (line joins, extra blank lines, single spaces between any two tokens); distinct non-trivial = distinct inputs accepted by the parser; each is formatted three times with the real formatter"
 	c.Proofs()
-	ins := fmttie.Inputs(c, c.N(150, 2500), c.N(6, 25))
+	gins := append(layoutInputs(c.Rng, c.N(1200, 12000)), goexprInputs(c.Rng, c.N(1000, 12000))...)
+	nOwn := len(gins)
+	for _, in := range fmttie.Inputs(c, c.N(150, 2500), c.N(6, 25)) {
+		gins = append(gins, genInput{in: in, family: "files"})
+	}
+	// the shared file inputs are formatted first (fmttie sends only the first few hundred ordinary inputs through the whole
+	// `templ fmt` pipeline as well, and that budget stays theirs); the small single-construct inputs are REPORTED first, so
+	// that the first failure of a replay is minimal
+	type ran struct {
+		cs fmttie.Case
+		ok bool
+	}
+	rs := make([]ran, len(gins))
+	for _, k := range append(seq(nOwn, len(gins)), seq(0, nOwn)...) {
+		rs[k].cs, rs[k].ok = fmttie.Run(gins[k].in)
+	}
 	var cases []fmttie.Case
+	var fams []string
 	var reqs []drv.Req
-	for _, in := range ins {
-		cs, ok := fmttie.Run(in)
-		if !ok {
-			c.Hist("input not accepted by templ generate (parse, generate or gofmt fails)")
+	for k, g := range gins {
+		cs := rs[k].cs
+		if !rs[k].ok {
+			c.Hist(g.family + ": input not accepted by templ generate (parse, generate or gofmt fails)")
 			continue
 		}
+		c.Hist(g.family + ": accepted")
+		for _, t := range g.tags {
+			c.Hist(t)
+		}
 		cases = append(cases, cs)
+		fams = append(fams, g.family)
 		reqs = append(reqs, drv.Req{Fn: "fmt", Args: [][]byte{[]byte(cs.Enc)}})
 	}
 	res := c.Model(reqs)
-	tie1, tie2, prop, accepted, conv, iff := true, true, true, true, true, true
-	nUnstable := 0
+	// second batch: inputs whose first pass is read back with another node structure - the model on the re-read tree
+	reread := map[int]string{}
+	{
+		var idx []int
+		var reqs2 []drv.Req
+		for i, cs := range cases {
+			if cs.P2Err == "" && !cs.SameStructure && cs.P1 != cs.P2 {
+				if enc, ok := encodeReread(cs.P1); ok {
+					idx = append(idx, i)
+					reqs2 = append(reqs2, drv.Req{Fn: "fmt", Args: [][]byte{[]byte(enc)}})
+				}
+			}
+		}
+		if len(reqs2) > 0 {
+			for k, r := range c.Model(reqs2) {
+				if len(r) == 5 && string(r[0]) == "ok" {
+					reread[idx[k]] = string(r[1])
+				}
+			}
+		}
+	}
+	tie1, tie2, prop, accepted, conv, iff, narrow := true, true, true, true, true, true, true
+	nUnstable, nPredicted := 0, 0
 	fullOK := true
 	shapeCount := map[string]int{}
 	for i, cs := range cases {
@@ -127,39 +333,39 @@ func Run(c *core.Ctx) {
 		stable := cs.P2 == cs.P1
 		layoutPredicted := fmttie.Squash(m2) == fmttie.Squash(cs.P2)
 		if stable {
-			c.Hist("stable after one pass")
+			c.Hist(fams[i] + ": stable after one pass")
 		} else {
 			nUnstable++
-			c.Hist("NOT stable after one pass")
-			// shape: the first applicable cause
-			shape := ""
-			switch {
-			case !cs.SameStructure:
-				shape = "ReparsedStructureDiffers" // printed text is read back as other syntax (e.g. text beginning `else {` after an if)
-			case len(reasons) > 0:
-				shape = reasons[0]
-			case layoutPredicted && m2 != cs.P2:
-				shape = "PaddingGrows:" + textShape(cs.P1, cs.P2)
-			case reindentOnly(cs.P1, cs.P2):
-				shape = "MultiLineTextReindent" // continuation lines of a text node gain indentation on every pass
-			default:
-				shape = textShape(cs.P1, cs.P2)
+			c.Hist(fams[i] + ": NOT stable after one pass")
+			shapes, predicted, detail := classify(cs, m1, m2, reasons, reread[i])
+			if predicted {
+				nPredicted++
+			} else if len(reasons) > 0 && m1 == cs.P1 && cs.SameStructure {
+				narrow = false // the model names a reason but its second pass is not the real one (also a property failure, below)
 			}
 			prop = false
-			shapeCount[shape]++
-			c.Hist("unstable: " + shape)
-			if shapeCount[shape] <= 2 {
-				a, b := firstDiffLine(cs.P1, cs.P2)
-				c.Fail("property", "idempotence: format(format x) = format x", shape, map[string]any{"file": cs.Name, "source": cs.Src, "first_pass_line": a, "second_pass_line": b, "model_reasons": reasons},
-					"formatting the formatter's output changes it")
+			for _, shape := range shapes {
+				shapeCount[shape]++
+				c.Hist("unstable: " + shape)
+				if shapeCount[shape] <= 2 {
+					a, b := firstDiffLine(cs.P1, cs.P2)
+					in := map[string]any{"file": cs.Name, "source": cs.Src, "first_pass": cs.P1, "second_pass": cs.P2, "first_pass_line": a, "second_pass_line": b, "model_reasons": reasons,
+						"baseline_model_predicts_this_second_pass": predicted}
+					for k, v := range detail {
+						in[k] = v
+					}
+					c.Fail("property", "idempotence: format(format x) = format x", shape, in, "formatting the formatter's output changes it")
+				}
 			}
 		}
-		// the layout model must predict the second pass (up to padding inside a line) whenever the structure is re-read unchanged
-		if cs.SameStructure && !layoutPredicted && !(!stable && reindentOnly(cs.P1, cs.P2)) {
-			tie2 = false
-			if c.NFails("formatter: model second pass (reparse) = real second pass") < 3 {
-				a, b := firstDiffLine(fmttie.Squash(m2), fmttie.Squash(cs.P2))
-				c.Fail("tie", "formatter: model second pass (reparse) = real second pass", "", map[string]string{"file": cs.Name, "source": cs.Src, "model_line": a, "impl_line": b}, "second pass differs from the prediction")
+		// the layout model must predict the second pass (up to the text-level shapes) whenever the structure is re-read unchanged
+		if cs.SameStructure && !layoutPredicted {
+			if _, ok, _ := residue(m2, cs.P2); !ok {
+				tie2 = false
+				if c.NFails("formatter: model second pass (reparse) = real second pass") < 3 {
+					a, b := firstDiffLine(fmttie.Squash(m2), fmttie.Squash(cs.P2))
+					c.Fail("tie", "formatter: model second pass (reparse) = real second pass", "", map[string]string{"file": cs.Name, "source": cs.Src, "model_line": a, "impl_line": b}, "second pass differs from the prediction")
+				}
 			}
 		}
 		if len(reasons) > 0 && stable {
@@ -197,8 +403,10 @@ func Run(c *core.Ctx) {
 		}
 	}
 	c.Extra["unstable_inputs"] = nUnstable
+	c.Extra["unstable_inputs_whose_second_pass_the_baseline_model_predicts"] = nPredicted
 	c.Oblige("correspondence", "formatter model first pass = TemplateFile.Write, byte for byte, on every accepted input", tie1, "")
 	c.Oblige("correspondence", "reparse model predicts the real second pass on every input whose instability is a layout one (and on every stable input)", tie2, "")
+	c.Oblige("correspondence", "every input for which the model names a reason: the model's second pass IS the real second pass (line by line, up to the two text-level shapes) - a known finding excuses only the instability the model derives for that input", narrow, "")
 	c.Oblige("correspondence", "unstable_reasons names a cause exactly when the model's predicted second pass differs from the first (executable form of C09_no_reason_stable and its converse) on every accepted input", iff, "")
 	c.Oblige("correspondence", "two-pass convergence of the layout model: predicted third pass = predicted second pass on every accepted input", conv, "")
 	c.Oblige("correspondence", "the formatter's output is accepted by the parser on every accepted input", accepted, "")
